@@ -260,6 +260,27 @@ def run_multistep(res: Result):
                                    verb, out[1] if out[0] == "exc" else repr(out[1]))},
                               {"op": "renamescript(emulated)", "fault_at": verb,
                                "outcome": repr(out)})
+    # no fault at all: every reply is OK, so the operation must report success - whatever
+    # the script looks like (empty, one byte, no final newline)
+    for body in (b"keep;\r\n", b"", b"x", b"\r\n", b"# only a comment"):
+        for active in (b"old", None, b"other"):
+            srv = ms.Server(users={b"user": b"pw"}, version=False, encodings="quoted",
+                            scripts={b"old": body, b"other": b"stop;\r\n"}, active=active)
+            srv.how_script = lambda: "literal"
+            sess, r = mslab.authed_session(srv)
+            out = sess.call("renamescript", "old", "new")
+            res.count("cases")
+            res.count("status:OK")
+            res.case("rename/all-ok/%r/%r" % (body, active))
+            ok = out == ("ret", True) and b"new" in srv.scripts and b"old" not in srv.scripts
+            res.monitor("status-mirror", not ok)
+            if not ok:
+                res.violation({"status": "OK", "code": "none", "text": "quoted",
+                               "problem": "emulated-rename-all-OK-but:%s" % (
+                                   out[1] if out[0] == "exc" else repr(out[1]))},
+                              {"op": "renamescript(emulated)", "body": body,
+                               "active": active, "outcome": repr(out),
+                               "commands": [c[1] for c in srv.commands]})
     res.sample({"workload": "multistep", "steps": ["greeting", "auth-verdict", "LISTSCRIPTS",
                                                    "GETSCRIPT", "PUTSCRIPT", "SETACTIVE",
                                                    "DELETESCRIPT"]}, 1)
